@@ -1,5 +1,6 @@
 import ThruVerif.Driver.Util
 import ThruVerif.Gen.Geometry
+import ThruVerif.Driver.CodecCmd
 /-!
 `tvdriver`: one case per input line, one result per output line. The same lines are given to the Go
 harness, which runs the real code; the orchestrator diffs the two outputs.
@@ -16,6 +17,11 @@ def handleGeo (ws : List String) : String :=
 def handle (line : String) : String :=
   match (line.trimAscii.toString.splitOn " ").filter (· ≠ "") with
   | "geo" :: ws => handleGeo ws
+  | "enc" :: ws => handleEnc ws
+  | "dec" :: ws => handleDec ws
+  | "decall" :: ws => handleDecAll ws
+  | "hdr" :: ws => handleHdr ws
+  | "enchdr" :: ws => handleEncHdr ws
   | _ => "bad-op"
 
 partial def loop (h : IO.FS.Stream) (out : IO.FS.Stream) : IO Unit := do
